@@ -62,7 +62,7 @@ impl Prop for Seq {
         "sequential"
     }
     fn cases(&self, tier: Tier) -> u64 {
-        tier.pick(750_000, 12_000_000)
+        tier.pick(750_000, 4_000_000)
     }
     fn strategy(&self, tier: Tier) -> BoxedStrategy<Case> {
         let p = Profile::all();
